@@ -19,7 +19,7 @@ CONSTANT PreFixF2        \* TRUE: the mechanism as it was before the fix (no re-
 Tps    == {1600, 1000, 273}
 Alphas == {Dec(35, -6), Dec(0, 0), Dec(1, -4)}
 Cps    == {1250, 1000}
-Gs     == {Dec(10, 0), Dec(981, -2), Dec(162, -2)}
+Gs     == {Dec(10, 0), Dec(981, -2), Dec(162, -2), Dec(-981, -2)}      \* a negative magnitude (upward-positive convention) keeps its sign
 Tss    == {273, 300}
 Depths == {-10 * Km, 0, 1, 100 * Km, 2890 * Km}
 Lists  == {<<PT>>, <<PT, PC(0)>>, <<PTag, PT, PV>>, <<PG(0, 2), PT>>, <<PC(3), PV, PTag>>}
